@@ -315,6 +315,7 @@ def run(chk, F):
     if c06_children is not None:
         c06_children.run(chk, c, F)
     run_r5(chk, F)
+    run_r6(chk, F)
     chk.assumptions += [
         "decides three structural panic sources in dora-parser; value-dependent unwrap/index sites in dora-frontend "
         "and termination of the type checker are not decided",
@@ -398,3 +399,53 @@ def run_r5(chk, F):
                             "the cycle detector does not descend into SourceType::%s.%s (%s): an alias that reaches "
                             "itself through that position is not reported, and type expansion then recurses until "
                             "the stack overflows" % (vname, fname, detail), fn["file"])
+
+
+# --------------------------------------------------------------------------- R6
+TEXT_CONVERSIONS = ("core::str::<impl str>::parse", "::from_str_radix", "core::str::traits::FromStr>::from_str",
+                    "core::char::methods::<impl char>::from_u32", "core::char::methods::<impl char>::from_digit",
+                    "core::char::methods::<impl char>::to_digit", "core::str::converts::from_utf8",
+                    "alloc::string::String::from_utf8", "core::char::convert::from_u32")
+
+
+def run_r6(chk, F):
+    """The lexer accepts more than the standard library's number/char grammars (`1.0e`, `0b` followed by a float
+    suffix, ...): a text→value conversion of token text can fail for lexically valid tokens, so its failure is an
+    *input* condition and must become a diagnostic, never an unwrap/expect."""
+    import cfg
+    r = chk.rule("C06.R6", "no unwrap/expect on the result of a standard text→value conversion (str::parse, "
+                           "from_str_radix, char::from_u32/from_digit/to_digit, from_utf8) of program text in the "
+                           "lexer, parser or semantic analysis")
+    nconv = nfn = 0
+    for cn in ("dora_parser", "dora_frontend"):
+        c = F.crate(cn)
+        for pth, mb in sorted(c.mir.items()):
+            if "::tests::" in pth or pth.endswith("::tests") or "::test_" in pth:
+                continue
+            nfn += 1
+            B = cfg.Body(mb)
+            convs = [x for x in B.calls if x.name and any(k in x.name for k in TEXT_CONVERSIONS)]
+            if not convs:
+                continue
+            defs = cfg.simple_defs(B)
+            for x in convs:
+                nconv += 1
+                r.instance("%s:%s" % (pth, last(x.name)), sample={"fn": pth, "conversion": x.name})
+            for x in B.calls:
+                nm = x.name or ""
+                if not (nm.startswith(("core::result::Result", "core::option::Option")) and
+                        last(nm) in ("unwrap", "expect", "unwrap_unchecked")) or not x.args:
+                    continue
+                if x.args[0][0] not in ("c", "m"):
+                    continue
+                o = cfg.origin(B, x.args[0], defs)
+                if o[0] != "call":
+                    continue
+                inner = cfg.callee_name(cfg.callee_of(o[1]["f"])) or ""
+                if any(k in inner for k in TEXT_CONVERSIONS):
+                    r.violation("%s:%s().%s" % (pth, last(inner), last(nm)),
+                                "the result of `%s` on program text is %s'ed: a token the lexer accepts but the "
+                                "standard grammar rejects (e.g. `1.0e`, `0bf32`) makes the front end panic instead "
+                                "of reporting a diagnostic" % (last(inner), last(nm)), "%s:%d" % (B.file, x.line))
+    r.floor("front-end functions scanned", nfn, 3000)
+    r.floor("text→value conversion sites", nconv, 4)
